@@ -242,6 +242,16 @@ func (s *session) do(in *Event) error {
 			}
 			// the projection below says what the command did instead; the specification's Stage does not explain it
 		}
+	case "reapply":
+		id, ok := s.txid(in.Tx)
+		if !ok {
+			return fmt.Errorf("reapply of unknown tx %d", in.Tx)
+		}
+		res, etext := s.w.Reapply(id)
+		if strings.HasPrefix(etext, "harness:") {
+			return fmt.Errorf("%s", etext)
+		}
+		e.Res, e.Err = res, etext
 	case "txcommit", "txdiscard":
 		id, ok := s.txid(in.Tx)
 		if !ok {
@@ -346,6 +356,14 @@ func randomHistory(s *session, rng *rand.Rand, length int) error {
 			staged[in.Tx] = map[int]bool{}
 		case r < 26:
 			in.Op, in.B, in.Tbl = "plain", 1+rng.Intn(nb), nextTbl()
+		case r < 33 && len(s.txs) > 0:
+			// `wrgl reapply TX`: mostly a committed transaction, sometimes one that is not (refused)
+			in.Op, in.Tx = "reapply", 1+rng.Intn(len(s.txs))
+			for t := 1; t <= len(s.txs) && rng.Intn(100) < 75; t++ {
+				if status[t] == "committed" {
+					in.Tx = t
+				}
+			}
 		case r < 55:
 			var open []int
 			for t := 1; t <= len(s.txs); t++ {
